@@ -266,6 +266,7 @@ def gen_case(prop, seed, tier):
         "tick": sw.choice([0.0, 0.001, 0.05]),
         "clock_jumps": [[sw.randint(1, 40), sw.choice([-30.0, -1.0, 2.0, 100.0])] for _ in range(sw.choice([0, 0, 1, 2]))],
         "searches": sw.choice([1, 1, 2]),
+        "arg_containers": [sw.choice(["tuple", "tuple", "list", "mixed"]) for _ in range(2)],
         # afterwards a SECOND optimizer object (same configuration, same pool) searches a different contraction
         "second_instance": sw.random() < 0.25 and not compressed,
         "compressed": compressed,
@@ -426,7 +427,15 @@ def _run_once(ctg, case, use_pool, use_faults, log, counters, faults, with_clock
                         signal.signal(signal.SIGVTALRM, _on_vtalrm)
                         signal.setitimer(signal.ITIMER_VIRTUAL, SEARCH_CPU_LIMIT)
                     try:
-                        res["tree"] = opt.search(inputs, output, size_dict)
+                        # the same contraction may be handed over in other (equivalent) containers on a later search
+                        ct = (case.get("arg_containers") or ["tuple"])[s % len(case.get("arg_containers") or ["tuple"])]
+                        if ct == "list":
+                            args = ([list(t) for t in inputs], list(output), dict(size_dict))
+                        elif ct == "mixed":
+                            args = (tuple(list(t) for t in inputs), list(output), dict(size_dict))
+                        else:
+                            args = (inputs, output, size_dict)
+                        res["tree"] = opt.search(*args)
                     finally:
                         if sched is None:
                             signal.setitimer(signal.ITIMER_VIRTUAL, 0)
